@@ -78,6 +78,14 @@ package lexer
 //@ ensures l.pos >= len(l.input) ==> result == 65533 && l.width == 0
 //@ ensures l.pos < len(l.input) ==> l.width >= 1
 
+// atEOL: a line feed, or a carriage return directly followed by one (C06: LF or CRLF line ends)
+//@ func (*Lexer).atEOL
+//@ requires LInv(l)
+//@ modifies l.width
+//@ ensures LInv(l)
+//@ ensures [C06,line-end-is-LF-or-CRLF] result == (runeAt(l.input, l.pos) == 10 || hasPrefixAt(l.input, l.pos, "\r\n"))
+//@ ensures l.width == widthAt(l.input, l.pos) && (l.pos >= len(l.input) ==> l.width == 0) && (l.pos < len(l.input) ==> l.width >= 1)
+
 //@ func (*Lexer).skipWhitespace
 //@ requires LInv(l) && l.start == l.pos
 //@ modifies l.pos, l.width, l.line, l.start, l.startLine
